@@ -40,7 +40,7 @@ StrList(a) == IF a.t = "q" THEN [i \in 1..Len(a.e) |-> Sprint(a.e[i])] ELSE IF a
 RECURSIVE JoinNL(_)
 JoinNL(l) == IF Len(l) = 0 THEN "" ELSE IF Len(l) = 1 THEN l[1] ELSE l[1] \o "\n" \o JoinNL(Tail(l))
 \* every value of a mapping as a string
-StrValues(m) == Map([i \in 1..Len(m.kv) |-> <<m.kv[i][1], StrOf(m.kv[i][2])>>])
+StrValues(m) == IF m.t # "m" THEN Str("<error: not a mapping>") ELSE Map([i \in 1..Len(m.kv) |-> <<m.kv[i][1], StrOf(m.kv[i][2])>>])
 
 CanonSrc(s) == IF s \in DOMAIN SourceTable THEN SourceTable[s] ELSE s
 
@@ -55,6 +55,7 @@ PluginEntry(src, cfg) == Map(<< <<CanonSrc(src), NormCfg(cfg)>> >>)
 \* one written item of a plugin list: a mapping (each entry a plugin, in order) or a bare source string
 PluginItems(a) == IF a.t = "m" THEN [i \in 1..Len(a.kv) |-> PluginEntry(a.kv[i][1], a.kv[i][2])] ELSE <<PluginEntry(a.v, Null)>>
 NormPlugins(a) == IF a.t = "m" THEN SeqV(PluginItems(a))
+                  ELSE IF a.t # "q" THEN Str("<error: plugins must be a list or a mapping>")     \* (the library refuses; never generated for the repaired code)
                   ELSE SeqV(Flatten([i \in 1..Len(a.e) |-> PluginItems(a.e[i])]))
 
 (* ---------------- matrix ---------------- *)
